@@ -148,6 +148,11 @@ class MediaRequestBase(RequestHandlerBase):
         origin_time: int = 0
 
         representation = media_file.representation
+        if representation is None:
+            return flask.make_response('Media file needs indexing', 404)
+        if stream.timing_reference is None:
+            return flask.make_response(
+                'stream.timing_reference has not been configured', 404)
 
         err = self.check_for_synthetic_http_error(media_file.content_type, seg_num, options)
         if err is not None:
@@ -167,15 +172,18 @@ class MediaRequestBase(RequestHandlerBase):
                 mode, representation, timing, seg_num, seg_time)
             assert sn is not None
             seg_num = sn
-        except ValueError as err:
-            logging.warning('ValueError: %s', err)
+            if mod_segment < 1 or mod_segment > representation.num_media_segments:
+                raise ValueError(f'Segment index {mod_segment} is outside of the media')
+        except (ValueError, OverflowError) as err:
+            # OverflowError: a segment number or time that is too large to
+            # be converted into a position on the stream timeline
+            logging.warning('%s: %s', type(err).__name__, err)
             return flask.make_response('Not Found', 404)
 
         assert mod_segment is not None
         assert isinstance(mod_segment, int)
         assert origin_time is not None
         assert isinstance(origin_time, int)
-        assert mod_segment >= 0 and mod_segment <= representation.num_media_segments
 
         atom = self.load_fragment(
             media_file, mod_segment, options,
@@ -403,6 +411,8 @@ class LiveMedia(MediaRequestBase):
             'LiveMedia.get: %s.%s stream=%s num=%s time=%s',
             filename, ext, stream, segment_num, segment_time)
         representation = current_media_file.representation
+        if representation is None:
+            return flask.make_response('Media file needs indexing', 404)
         try:
             options = self.calculate_options(mode, flask.request.args, current_stream)
         except ValueError as err:
@@ -570,6 +580,15 @@ class ServeMpsMedia(MediaRequestBase):
         origin_time = -seg_start_tc
         if seg_time is not None:
             origin_time += seg_time
+            # a $Time$ request has no segment number: count the segments
+            # from the one that the Period starts with
+            first_seg, _, _ = representation.get_segment_index(
+                start_time - seg_time)
+            if mod_seg < first_seg:
+                raise ValueError('Segment before start of Period')
+            return SegmentPosition(
+                mod_seg, origin_time,
+                representation.start_number + mod_seg - first_seg)
 
         if seg_num is not None:
             if seg_num < representation.start_number:
